@@ -48,3 +48,38 @@ package proxy
 // An If-Range does not match when it is an entity tag different from the stored
 // one, or a date earlier than the stored Last-Modified.
 //@ spec func specIfRangeMismatch(hd ptr, cached ptr) bool = hd.IfRange.value.some && ((hd.IfRange.value.value.left.some && sid(hd.IfRange.value.value.left.value) != sid(cached.Metadata.Object.ETag)) || (!hd.IfRange.value.value.left.some && hd.IfRange.value.value.right.value < cached.Metadata.Object.LastModified))
+
+// ---------------------------------------------------------------- cache status labels, Age (C03)
+
+// The age of a stored response is never below the time it has been resident in the cache.
+//@ props C03 C16
+//@ func getCurrentAge
+//@   nopanic
+//@   pure
+//@   ensures [C03] result >= 0
+//@   ensures [C03] (decval(sid(originalHead["Age"][0])) < 4000000000 || !in(originalHead, "Age")) && now - storedAt < 9000000000000000000 && storedAt - now < 9000000000000000000 ==> result >= (now - storedAt) / 1000000000
+
+// The Cache-Status text itself is not specified yet; the function is total and has no side effects.
+//@ props C03 C16
+//@ func makeCacheStatusHeader
+//@   nopanic
+//@   pure
+//@   requires cached.some ==> cached.value != nil && cached.value.Metadata != nil
+
+//@ props C03 C16
+//@ func fetchResultToCacheStatus
+//@   nopanic
+//@   pure
+//@   ensures [C03] fetched.Type == 0 ==> result.hitStatus == fetched.Cached.fetchInfo.Status
+//@   ensures [C03] fetched.Type == 1 ==> result.hitStatus == fetched.Direct.fetchInfo.Status
+
+// X-Cache says HIT exactly for a response served from the store without
+// contacting the origin; Age is computed from the time the entry was written.
+//@ props C03 C16
+//@ func addCacheHeaders
+//@   nopanic
+//@   requires req != nil
+//@   requires cached.some ==> cached.value != nil && cached.value.Metadata != nil
+//@   ensures [C03] len(resphdr(r)["X-Cache"]) == old(len(resphdr(r)["X-Cache"])) + 1
+//@   ensures [C03] cacheStatus.hitStatus == 2 <==> sid(resphdr(r)["X-Cache"][len(resphdr(r)["X-Cache"])-1]) == sid("HIT")
+//@   ensures [C03] cached.some && (cacheStatus.hitStatus == 2 || cacheStatus.hitStatus == 1) && (decval(sid(cached.value.Metadata.Object.Header["Age"][0])) < 4000000000 || !in(cached.value.Metadata.Object.Header, "Age")) && now - cached.value.Metadata.TimeWritten < 9000000000000000000 && cached.value.Metadata.TimeWritten - now < 9000000000000000000 ==> decval(sid(resphdr(r)["Age"][0])) >= (now - cached.value.Metadata.TimeWritten) / 1000000000
